@@ -30,6 +30,7 @@ LITS = [
     "'s'", "''", '""', "'it''s'", '"q""q"', "'a!b'", '"a!!b"', "'a;b'", "'a&b'", "'&'",
     "'a\"b'", "\"a'b\"", "'end program'", "' ! x'", "''''", "'a  b'",
     # runs of semicolons, and characters that str.splitlines() (but not line-wise reading of a file) treats as line ends
+    "'\\'", '"c:\\d\\"', "'\\\\h\\'",  # a backslash is an ordinary character, also right before the closing quote
     "';;'", '"a; ;b"', "'he\x0cad'", '"u\u2028v"', "'n\x85l'", "'v\x0bt\x1cf'",
 ]
 # literals continued across lines in the standard form (& at the end, & at the start); logical
